@@ -457,6 +457,41 @@ func (p *c16) malformedKeys(x *res, ctx *runner.Ctx) {
 				x.viol("runtime-panic", got.Site, fmt.Sprintf("[%s] name key %q: panic %s", adapter, bn, got.Msg), map[string]interface{}{"adapter": adapter, "op": op})
 			}
 		}
+		// a well-formed placeholder that stands for NOTHING: the empty string, a nil pointer - in a filter, a condition, an
+		// update target and a projection. (Accepted, the request would address an attribute called "" - or, the entry
+		// being dropped on the way, one literally called "#a".)
+		for _, target := range []string{"", adapt.NilName} {
+			for ri, mk := range []func(n map[string]string) adapt.Op{
+				func(n map[string]string) adapt.Op {
+					return adapt.Op{Kind: adapt.OpScan, Table: spec.Name, Filter: "#a = :v", Names: n, Values: val.Item{":v": val.Str("x")}}
+				},
+				func(n map[string]string) adapt.Op {
+					return adapt.Op{Kind: adapt.OpPut, Table: spec.Name, Item: val.Item{"h": val.Str("k")}, Cond: "attribute_not_exists(#a)", Names: n}
+				},
+				func(n map[string]string) adapt.Op {
+					return adapt.Op{Kind: adapt.OpUpdate, Table: spec.Name, Key: val.Item{"h": val.Str("k")}, Update: "SET #a = :v", Names: n, Values: val.Item{":v": val.Str("x")}}
+				},
+				func(n map[string]string) adapt.Op {
+					return adapt.Op{Kind: adapt.OpGet, Table: spec.Name, Key: val.Item{"h": val.Str("k")}, Proj: "#a", Names: n}
+				},
+				func(n map[string]string) adapt.Op {
+					return adapt.Op{Kind: adapt.OpDelete, Table: spec.Name, Key: val.Item{"h": val.Str("k")}, Cond: "attribute_exists(h) OR #a = #b", Names: map[string]string{"#a": n["#a"], "#b": "p"}}
+				},
+			} {
+				cl, _, _ := freshClient(adapter, spec)
+				op := mk(map[string]string{"#a": target})
+				got := cl.Do(op)
+				sc := cl.Do(adapt.Op{Kind: adapt.OpScan, Table: spec.Name})
+				x.r.Evals += 2
+				x.fp(true, "R4|%s|name-target|%q|%d", adapter, target, ri)
+				wit := map[string]interface{}{"adapter": adapter, "op": op, "outcome": got, "table_after": sc.Items}
+				if got.Class == adapt.ClsOK || got.Class == adapt.ClsCondFailed {
+					x.viol("malformed-placeholder-accepted", "name-target", fmt.Sprintf("[%s] %s with ExpressionAttributeNames {#a: %q} (a placeholder that stands for no attribute name) is answered %s; the table then holds %s", adapter, op.Kind, target, got.Class, adapt.ItemsCanon(sc.Items)), wit)
+				} else if got.Class == adapt.ClsRuntime {
+					x.viol("runtime-panic", got.Site, fmt.Sprintf("[%s] name target %q: panic %s", adapter, target, got.Msg), wit)
+				}
+			}
+		}
 		for _, bv := range badValues {
 			cl, _, _ := freshClient(adapter, spec)
 			op := adapt.Op{Kind: adapt.OpScan, Table: spec.Name, Filter: "p = " + bv, Values: val.Item{bv: val.Str("x")}}
@@ -644,7 +679,7 @@ func (p *c16) batchRules(x *res, ctx *runner.Ctx) {
 					}
 				}
 			}
-			for _, shape := range []string{"neither", "both", "neither-among-valid", "both-among-valid", "neither-last-of-25", "both-first-of-20"} {
+			for _, shape := range []string{"neither", "both", "neither-among-valid", "both-among-valid", "neither-last-of-25", "both-first-of-20", "absent", "absent-among-valid"} {
 				cl, _, _ := freshClient(adapter, specs[0])
 				for _, op := range mode.pre {
 					cl.Do(op)
@@ -654,6 +689,9 @@ func (p *c16) batchRules(x *res, ctx *runner.Ctx) {
 				bad := adapt.BatchEntry{Table: t}
 				if strings.HasPrefix(shape, "both") {
 					bad = adapt.BatchEntry{Table: t, Put: val.Item{"h": val.Str("b")}, Del: val.Item{"h": val.Str("b")}}
+				}
+				if strings.HasPrefix(shape, "absent") {
+					bad = adapt.BatchEntry{Table: t, Absent: true}
 				}
 				batch := []adapt.BatchEntry{bad}
 				many := func(n int) []adapt.BatchEntry {
